@@ -6,6 +6,7 @@ import (
 	"verif/props/c01"
 	"verif/props/c02"
 	"verif/props/c03"
+	"verif/props/c09"
 )
 
 // Registry maps property ids to spec constructors.
@@ -14,5 +15,6 @@ func Registry() map[string]func() *mon.Spec {
 		"C01": c01.Spec,
 		"C02": c02.Spec,
 		"C03": c03.Spec,
+		"C09": c09.Spec,
 	}
 }
